@@ -3,12 +3,22 @@
    parent and siblings, which must not show), every rendering of the payloads given as an arbitrary
    CHUNKING (sequence of write_str calls) whose concatenation is non-empty and does not end in a
    newline, the four modes, debug and release: the writer machine outputs exactly [render]. *)
-From IT Require Import Spec.
-From IT.proofs Require Import PrinterProofs.
+From IT Require Import Props.
+From IT.proofs Require Import PrinterProofs Reach Reach2.
+From IT.proofs Require ReprTree.
 
 Theorem C14_print : forall dbg a t rend mode pay,
   tree_in a t -> payloads_ok a rend mode pay t ->
   pretty_print dbg rend mode (root t) a = Ok (render rend mode pay t).
 Proof. exact pretty_print_render. Qed.
 
+(* from EVERY live node of EVERY reachable arena: the drawing is that of the abstract forest's tree of x *)
+Theorem C14_print_reachable : forall ops dbg F x rend mode, Repr (ar (reach ops)) F -> live (ar (reach ops)) x ->
+  let a := ar (reach ops) in
+  (forall y, In y (preorderF (length (nodes a)) F x) ->
+     good_text (concat (rend (payload_at a y) mode)) /\ exists n v, node_at a y n /\ data n = Data v) ->
+  pretty_print dbg rend mode x a = Ok (render rend mode (payload_at a) (ReprTree.treeF (length (nodes a)) F x)).
+Proof. exact reach_print. Qed.
+
 Print Assumptions C14_print.
+Print Assumptions C14_print_reachable.
